@@ -11,10 +11,14 @@ import (
 var _ db.Iterator = (*iterator)(nil)
 
 type iterator struct {
+	// curInd is -1 when the iterator is before the first key and len(keys) when it is past the last.
 	curInd int
 	keys   []string
 	values [][]byte
 	closed bool
+	// positioned is false until the first First/Seek/Next/Prev call (like the Pebble backends,
+	// Next and Prev on an unpositioned iterator behave as First).
+	positioned bool
 }
 
 func (i *iterator) Valid() bool {
@@ -30,6 +34,7 @@ func (i *iterator) First() bool {
 		panic(errIteratorClosed)
 	}
 
+	i.positioned = true
 	i.curInd = 0
 	return i.Valid()
 }
@@ -39,19 +44,16 @@ func (i *iterator) Prev() bool {
 		panic(errIteratorClosed)
 	}
 
-	if i.curInd == 0 {
-		// consistent with pebble's behaviour when Prev() is called on the first key:
-		// iterator becomes invalid
-		i.curInd = -1
-		return false
-	}
-
-	if i.curInd == -1 {
+	if !i.positioned {
 		return i.First()
 	}
 
-	i.curInd--
-	return true
+	// Consistent with pebble: stepping back from the first key exhausts the iterator (it stays
+	// before the first key), stepping back from past the end lands on the last key.
+	if i.curInd >= 0 {
+		i.curInd--
+	}
+	return i.Valid()
 }
 
 func (i *iterator) Next() bool {
@@ -59,7 +61,14 @@ func (i *iterator) Next() bool {
 		panic(errIteratorClosed)
 	}
 
-	i.curInd++
+	if !i.positioned {
+		return i.First()
+	}
+
+	// Consistent with pebble: once past the last key the iterator stays there.
+	if i.curInd < len(i.keys) {
+		i.curInd++
+	}
 	return i.Valid()
 }
 
@@ -106,6 +115,7 @@ func (i *iterator) Seek(key []byte) bool {
 		panic(errIteratorClosed)
 	}
 
+	i.positioned = true
 	for j := range i.keys {
 		if bytes.Compare(key, []byte(i.keys[j])) <= 0 {
 			i.curInd = j
